@@ -16,7 +16,7 @@ use crate::uni::{hash_str, Universe};
 type Pk = DefiniteDescriptorKey;
 pub const UNSPENDABLE: usize = 21;
 
-fn pol_str(u: &Universe, p: &Value, ctx: &str) -> String {
+pub fn pol_str(u: &Universe, p: &Value, ctx: &str) -> String {
     let k = p["p"].as_str().unwrap();
     let n = p["n"].as_i64().unwrap_or(0);
     let xs = p["xs"].as_array().unwrap();
